@@ -246,6 +246,7 @@ class SimSocket:
         self.fail_next_send = None   # errno to raise once
         self.send_hook = None        # fn(addr): may raise OSError (injected syscall failure)
         self.unwritable = None       # fn() -> True when select() shall report the socket as not writable this time
+        self.msgsize_error = None    # fn(len, bufsize): when set, recvfrom of an oversized datagram raises EMSGSIZE (Windows)
         net.bind(addr, name, node, self._on_datagram)
 
     # -- network side
@@ -283,6 +284,11 @@ class SimSocket:
         data, src = self.queue.pop(0)
         if isinstance(data, BaseException):
             raise data              # an error event queued by inject_recv_error (e.g. ECONNRESET after an ICMP unreachable)
+        if len(data) > n and getattr(self, "msgsize_error", None) is not None:
+            # Windows semantics: a datagram larger than the buffer is cut off AND reported as an error
+            # (WSAEMSGSIZE, 10040); POSIX silently truncates
+            self.msgsize_error(len(data), n)
+            raise OSError(errno.EMSGSIZE, "[WinError 10040] A message sent on a datagram socket was larger than the internal message buffer")
         if len(data) > n:
             t = type(data)(data[:n])
             if isinstance(data, TaggedBytes):
